@@ -76,7 +76,7 @@ impl Scenario for C14 {
                     steps.push(json!({"op": "renew_end"}));
                     pending_renew = false;
                 }
-                _ => steps.push(json!({"op": "forged", "how": *rng.pick(&["other_nonces", "token_id"])})),
+                _ => steps.push(json!({"op": "forged", "how": *rng.pick(&["other_nonces", "token_id", "token_id_zero", "token_id_older"])})),
             }
         }
         json!({"policy": policy, "mode": mode, "tseed": rng.next_u64() >> 12, "steps": steps})
@@ -159,10 +159,16 @@ async fn run(plan: &Value, ctx: &mut Ctx) {
                     ctx.fault("forged_token");
                     // secure with a channel the server knows nothing about
                     let how = s["how"].as_str().unwrap_or("other_nonces");
-                    let mut pair = wire::channel_pair(policy, mode, 2048, 0xF00D + i as u64, c.chan.secure_channel_id(), if how == "token_id" { client_token + 40 } else { client_token });
-                    if how == "token_id" {
-                        // real keys of the client, but a token id nobody issued
-                        c.chan.set_token_id(client_token + 40);
+                    let mut pair = wire::channel_pair(policy, mode, 2048, 0xF00D + i as u64, c.chan.secure_channel_id(), client_token);
+                    if how.starts_with("token_id") {
+                        // real keys of the client, but a token id nobody issued (far ahead, zero, or
+                        // one below the oldest the server can still know)
+                        let bogus = match how {
+                            "token_id_zero" => 0,
+                            "token_id_older" => client_token.saturating_sub(2),
+                            _ => client_token + 40,
+                        };
+                        c.chan.set_token_id(bogus);
                         let r = c.encode_message(&msg);
                         c.chan.set_token_id(client_token);
                         r
@@ -193,7 +199,7 @@ async fn run(plan: &Value, ctx: &mut Ctx) {
                 let _ = c.drain(Duration::from_millis(0)).await; // responses may be unreadable for the raw client; not needed
                 let took_effect = current_value(&server, &var) == value;
                 // model
-                let token_used = if forged && s["how"] == "token_id" { client_token + 40 } else { client_token };
+                let token_used = if forged && s["how"].as_str().unwrap_or("").starts_with("token_id") { u32::MAX - 1 } else { client_token };
                 let issued = !forged && token_used <= server_token;
                 let must_accept = issued && (token_used == server_token || (token_used + 1 == server_token && server_seen_token < server_token));
                 ctx.log(
@@ -219,7 +225,7 @@ async fn run(plan: &Value, ctx: &mut Ctx) {
                 }
                 if took_effect && !forged {
                     server_seen_token = server_seen_token.max(token_used);
-                } else {
+                } else if !took_effect {
                     value -= 1;
                 }
             }
